@@ -67,6 +67,10 @@ func runC18(c *Ctx) error {
 		st := reflect.StructOf([]reflect.StructField{{Name: "F", Type: rv.Type(), Tag: tagOf(tag)}})
 		sv := reflect.New(st).Elem()
 		sv.Field(0).Set(rv)
+		if r.Chance(40) { // the same type validated a moment ago under another rule for F (this call is judged by its own rule)
+			prime := &walkCall{Entry: "struct", Src: sv.Addr().Interface(), HasUnsc: true, Unscoped: map[string]string{"F": "eq=987654|PRIME"}}
+			prime.run()
+		}
 		add(&walkCall{Entry: "struct", Src: sv.Addr().Interface()}, "F", "struct")
 		// map[string]T
 		mv := reflect.MakeMap(reflect.MapOf(reflect.TypeOf(""), rv.Type()))
@@ -81,7 +85,11 @@ func runC18(c *Ctx) error {
 		if s, ok := sp.val.(string); ok {
 			params := []string{"k=" + s}
 			enc := "raw"
-			switch r.Intn(3) {
+			pick := r.Intn(3)
+			if strings.ContainsAny(s, "+%#") { // these bytes have a meaning in a query: only the escaped spelling carries them
+				pick = 0
+			}
+			switch pick {
 			case 0:
 				params[0] = "k=" + url.QueryEscape(s)
 				enc = "encoded"
@@ -98,7 +106,7 @@ func runC18(c *Ctx) error {
 			}
 			add(&walkCall{Entry: "url", Rules: map[string]string{"k": tag}, Src: "http://h.example/a/b?" + strings.Join(params, "&")}, "k", "url-"+enc)
 			// a bare key (no '=') after a parameter that has a value: the value is empty, every rule is skipped
-			bare := &walkCall{Entry: "url", Rules: map[string]string{"k": tag}, Src: "http://h.example/a/b?z=" + s + "&k&y=1"}
+			bare := &walkCall{Entry: "url", Rules: map[string]string{"k": tag}, Src: "http://h.example/a/b?z=" + url.QueryEscape(s) + "&k&y=1"}
 			term, desc := bare.caseTerm([]string{"SNil", "SNoPanic"})
 			desc["presentation"] = "url-bare-key"
 			w.Add(term, desc, "url-bare:"+sp.name)
